@@ -9,8 +9,9 @@
 (*                                                                            *)
 (* Written from parser.py (token regex, url_fn, text_fn URL branch, magic_fn, *)
 (* _parser_merge_str_children):                                               *)
-(*  * calls, argument references and nowiki are replaced by ONE placeholder   *)
-(*    character each before tokenising;                                       *)
+(*  * calls, argument references, nowiki (and the inner brackets of "[1]"     *)
+(*    while a link is read) are replaced by ONE placeholder character each    *)
+(*    before tokenising;                                                      *)
 (*  * the URL token is  scheme://host  followed, only if a "/" comes directly  *)
 (*    after the host, by a path that runs up to the next  ] [ { } < > | blank  *)
 (*    - placeholder characters are swallowed by the path; everything after a  *)
